@@ -12,11 +12,11 @@ CONSTANTS
  Msgs <- MCMsgs
  Subject <- MCSubject
  MaxCommits = 2
- FreshContent = "c1"
+ FreshContent = ""
  Want = {"ALL"}
  ArgLists <- MCArgLists
  InitEvents <- MCInitEvents
- WithId = TRUE
+ WithId = FALSE
  CfgKeys <- MCCfgKeys
  CfgValues <- MCCfgValues
  IgnoreVariants <- MCIgnoreVariants
